@@ -459,6 +459,11 @@ class InProtocolBase(ProtocolMixin):
             if match:
                 tz_hr, tz_min = [int(match.group(x))
                                                    for x in ("tz_hr", "tz_min")]
+                if abs(tz_hr) > 23 or tz_min > 59:
+                    # datetime objects can't carry such an offset; they raise
+                    # ValueError as soon as it's looked at.
+                    raise ValidationError(string, "%r: UTC offset out of range")
+
                 # the sign applies to the whole offset, not just to the hours
                 tz_offset = abs(tz_hr) * 60 + tz_min
                 if match.group("tz_hr").startswith('-'):
